@@ -284,3 +284,54 @@ pub fn failing_drop_waits_model(which: usize) -> (String, usize) {
     });
     (msg, n.load(std::sync::atomic::Ordering::SeqCst))
 }
+
+// ------------------------------------------------------------------------------------------
+// hand-written models for C17: a thread-local that is first touched by another thread-local's
+// destructor, during the teardown of its thread, is still initialised once and dropped once.
+// Counted with process-wide counters: the late value is dropped when its `Thread` is dropped,
+// which can be after the iteration's record is closed.
+// ------------------------------------------------------------------------------------------
+
+pub static LATE_INITS: std::sync::atomic::AtomicUsize = std::sync::atomic::AtomicUsize::new(0);
+pub static LATE_DROPS: std::sync::atomic::AtomicUsize = std::sync::atomic::AtomicUsize::new(0);
+pub static EARLY_INITS: std::sync::atomic::AtomicUsize = std::sync::atomic::AtomicUsize::new(0);
+pub static EARLY_DROPS: std::sync::atomic::AtomicUsize = std::sync::atomic::AtomicUsize::new(0);
+
+struct Late;
+impl Drop for Late {
+    fn drop(&mut self) {
+        LATE_DROPS.fetch_add(1, std::sync::atomic::Ordering::SeqCst);
+    }
+}
+struct Early;
+impl Drop for Early {
+    fn drop(&mut self) {
+        EARLY_DROPS.fetch_add(1, std::sync::atomic::Ordering::SeqCst);
+        // first access to LATE by this thread: it is created during the teardown
+        let _ = TLS_LATE.try_with(|_| ());
+    }
+}
+
+loom::thread_local! {
+    static TLS_LATE: Late = { LATE_INITS.fetch_add(1, std::sync::atomic::Ordering::SeqCst); Late };
+    static TLS_EARLY: Early = { EARLY_INITS.fetch_add(1, std::sync::atomic::Ordering::SeqCst); Early };
+}
+
+/// `which`: 0 = a spawned thread uses EARLY, 1 = main uses EARLY, 2 = both, next to a race that
+/// gives several iterations.
+pub fn tls_teardown_model(which: usize) {
+    use loom::sync::atomic::{AtomicUsize, Ordering::SeqCst};
+    let a = loom::sync::Arc::new(AtomicUsize::new(0));
+    let a2 = a.clone();
+    let t = loom::thread::spawn(move || {
+        if which != 1 {
+            TLS_EARLY.with(|_| ());
+        }
+        a2.fetch_add(1, SeqCst);
+    });
+    if which != 0 {
+        TLS_EARLY.with(|_| ());
+    }
+    a.fetch_add(1, SeqCst);
+    t.join().unwrap();
+}
